@@ -2,6 +2,8 @@
 package dcond
 
 import (
+	"regexp"
+	"net/url"
 	"fmt"
 	"strings"
 
@@ -45,7 +47,8 @@ func brief(s string) string {
 
 func condText(c abs.Cond) string {
 	lit := c.Lit
-	if _, err := fmt.Sscanf(lit, "%d", new(int64)); err != nil || strings.ContainsAny(lit, "abcdefghijklmnopqrstuvwxyz") {
+	// a number literal is written bare, everything else in quotes
+	if !regexp.MustCompile(`^-?[0-9]+(\.[0-9]+)?$`).MatchString(lit) {
 		lit = "'" + lit + "'"
 	}
 	if len(c.Lit) > 15 { // large numerals
@@ -125,7 +128,7 @@ func execWhere(c core.Case) []core.Rec {
 	core.Recode(c["cond"], &cond)
 	capt := fx.NewCapture(f)
 	rerr, p, frame := dedit.Guard(func() error {
-		sel, e := b.Root().Find(fx.URLPath(list) + "?where=" + strings.ReplaceAll(strings.ReplaceAll(condText(cond), ">", "%3E"), "<", "%3C"))
+		sel, e := b.Root().Find(fx.URLPath(list) + "?where=" + url.QueryEscape(condText(cond)))
 		if e != nil {
 			return e
 		}
@@ -180,7 +183,7 @@ func execFilter(c core.Case) []core.Rec {
 	b := node.NewBrowser(f.Module, rootNode)
 	delivered := []int{}
 	rerr, p, frame := dedit.Guard(func() error {
-		sel, e := b.Root().Find("evt?filter=" + strings.ReplaceAll(strings.ReplaceAll(condText(cond), ">", "%3E"), "<", "%3C"))
+		sel, e := b.Root().Find("evt?filter=" + url.QueryEscape(condText(cond)))
 		if e != nil {
 			return e
 		}
